@@ -189,7 +189,9 @@ def rdata(t, rng):
         if k == 1:
             return "empty-string", b"\x00"
         if k == 2:
-            return "one-char", b"\x01a"
+            # one octet: plain, or one the DNS library prints as an escape (\DDD or \X)
+            o = rng.choice([b"a", b"\x00", b"\xff", b"\\", b'"', b"\x07", b".", b"(", b"@"])
+            return "one-octet" + ("" if o == b"a" else "-escaped"), b"\x01" + o
         if k == 3:
             return "tag-only", b"\x02aa"
         if k == 4:
@@ -245,13 +247,58 @@ def client_cases(tier, rng):
     return cs
 
 
+def near_wrap_cases(tier, rng):
+    """the established session has already received packets up to a sequence number near the 16-bit wrap (implementation only)"""
+    cs = []
+    for inseq in (65407, 65408, 65409, 65500, 65534, 65535, 0, 1):
+        for off in ((1, 5, 126, 127, 128, -1, -200, 0) if tier == "thorough" else (1, 127, -1)):
+            for owner in (1, 0):
+                if owner == 0 and tier != "thorough" and off != 1:
+                    continue
+                seq = (inseq + off) % 65536
+                raw = struct.pack("<H", 65535) + b"\x01" + struct.pack("<H", seq) + b"stray"
+                c = mk_s(b"caaa00" + b32(raw), "domain", 10, 1, 1, owner, "near-wrap", "packet/next%d/off%d" % (inseq, off))
+                c["line"] = "c12q %d %s" % (inseq, c["line"][5:])
+                c["model"] = False
+                c["key"] = ("q", inseq, off, owner)
+                cs.append(c)
+    return cs
+
+
+def handshake_cases(tier, rng):
+    """a whole client handshake against a peer that answers every query with one fixed answer section (implementation only)"""
+    ver_ok = b"v00" + b32(struct.pack("<I", 0x502) + b"\x00")
+    payloads = [b"", b"e", b"E", b"e" + b32(b""), b"e" + b32(b"BADVER"), b"e" + b32(b"\x00"), b"v", b"v0", b"v00", ver_ok, b"V00" + b32(struct.pack("<I", 0x502) + b"\xff"),
+                b"c", b"c" + b32(b"\x00\x00\x00"), b"c" + b32(b"\x01\x00\x00\x05\x00abc"), b"o", b"o" + b32(b"\x00"), b"r", b"r" + b32(b"\x00" + struct.pack("<I", 3) + b"abc"),
+                b"y", b"yo", b"ye", b"yo" + b32(b"abc"), b"z", b"z" + b32(b"\x00abc"), b"l", b"m", b"x", b"\x00", b"\xff\xff"]
+    cs = []
+    # the first k queries are answered by a real server, then the fixed answer takes over: every phase of the handshake meets it
+    ks = list(range(0, 23)) if tier == "thorough" else [0, 1, 2, 3, 4, 6, 8, 10, 12, 14, 16, 18, 20, 21]    # an honest handshake takes 22 exchanges
+    for pl in payloads:
+        forms = [("NULL", "10 %s" % hx(struct.pack("<H", 1) + pl))]
+        if tier == "thorough" or rng.chance(1, 3):
+            forms.append(("TXT", "16 %s" % hx(bytes([len(pl) + 2]) + b"aa" + pl)))
+            forms.append(("PRIVATE", "65000 %s" % hx(struct.pack("<H", 1) + pl)))
+        for name, f in forms:
+            for k in (ks if tier == "thorough" else [0] + [rng.choice(ks) for _ in range(3)]):
+                cs.append({"line": "c12h %d %s" % (k, f), "key": ("h", name, pl[:4].hex(), k), "model": False, "tags": {"side": "client-handshake", "n": 1, "types": name}})
+    for k in ks:
+        cs.append({"line": "c12h %d" % k, "key": ("h", "none", k), "model": False, "tags": {"side": "client-handshake", "n": 0, "types": ""}})
+        cs.append({"line": "c12h %d 10 %s" % (k, hx(struct.pack("<H", 1) + b"e")), "key": ("h", "bare-e", k), "model": False, "tags": {"side": "client-handshake", "n": 1, "types": "NULL"}})
+    for t, rd in ((16, b"\x01\x00"), (16, b"\x01\\"), (16, b""), (5, b"\x00"), (5, b"\x01a\x00"), (15, b"\x00\x0a\x00"), (33, b"\x00\x00\x00\x00\x00\x00\x00"), (10, b""), (10, b"\x01"), (1, b"\x01\x02\x03\x04")):
+        cs.append({"line": "c12h %d %d %s" % (rng.choice(ks), t, hx(rd)), "key": ("h", t, rd.hex()), "model": False, "tags": {"side": "client-handshake", "n": 1, "types": RR.get(t, "?")}})
+    return cs
+
+
 def cases(tier, rng):
-    return server_cases(tier, rng) + client_cases(tier, rng)
+    return server_cases(tier, rng) + client_cases(tier, rng) + near_wrap_cases(tier, rng) + handshake_cases(tier, rng)
 
 
 def oracle(case, impl):
     p = impl.split()
     side = case.get("tags", {}).get("side") or ("client" if case["line"].startswith("c10raw") else "server")
+    if side == "client-handshake":
+        side = "client"
     if not p:
         return [(side + "-died", "no output: " + case["line"][:200])]
     if p[0] == "panic":
@@ -259,6 +306,15 @@ def oracle(case, impl):
     if p[0] in ("died", "timeout", "harness-error", "oom"):
         return [("%s-%s" % (side, p[0]), "%s did not come back (%s) on %s" % (side, impl[:80], case["line"][:200]))]
     if side == "client":
+        return []
+    if case["line"].startswith("c12h"):
+        return []      # any end of the handshake but a crash or a hang is fine (handled above)
+    if case["line"].startswith("c12q"):
+        if p[0] == "unpackable":
+            return []
+        f = dict(zip(p[1::2], p[2::2]))
+        if int(f.get("future", 0)) > 128:
+            return [("kept-without-bound;what=parked-packets", "%s packets parked: %s" % (f["future"], case["line"][:160]))]
         return []
     if case["line"].startswith("c12r"):
         if p[0] == "unpackable":
@@ -339,7 +395,7 @@ def distribution(cs):
             nq[str(t["nq"])] = nq.get(str(t["nq"]), 0) + 1
             owner[str(t["owner"])] = owner.get(str(t["owner"]), 0) + 1
             under[t["under"]] = under.get(t["under"], 0) + 1
-        elif t.get("side") == "client":
+        elif t.get("side") in ("client", "client-handshake"):
             d["client"] += 1
             types[t["types"]] = types.get(t["types"], 0) + 1
     d.update({"server_commands": cmds, "server_questions": nq, "server_from_owner": owner, "server_name_under": under,
